@@ -287,21 +287,24 @@ func ValidValues(s *Spec, n int) []any {
 			}
 		}
 	case KOneOfStr, KOneOfInt:
-		for _, mem := range s.Members {
-			mv, ok := ValidValue(memberObject(mem.Type))
-			if !ok {
-				continue
+		// the minimal value of every member first, then the fuller one of every member
+		for variant := 0; variant < 2; variant++ {
+			for _, mem := range s.Members {
+				mvs := ValidValues(memberObject(mem.Type), 2)
+				if len(mvs) <= variant {
+					continue
+				}
+				m := map[string]any{}
+				for k, v := range mvs[variant].(map[string]any) {
+					m[k] = v
+				}
+				if s.Kind == KOneOfStr {
+					m[s.Discriminator] = mem.KeyS
+				} else {
+					m[s.Discriminator] = mem.KeyI
+				}
+				add(m)
 			}
-			m := map[string]any{}
-			for k, v := range mv.(map[string]any) {
-				m[k] = v
-			}
-			if s.Kind == KOneOfStr {
-				m[s.Discriminator] = mem.KeyS
-			} else {
-				m[s.Discriminator] = mem.KeyI
-			}
-			add(m)
 		}
 	case KRef:
 		if s.resolved != nil && refDepth < 2 {
@@ -537,6 +540,14 @@ func ObjectRawValues(s *Spec) []any {
 	limit := 1 << n
 	if n > 4 {
 		limit = 16
+		// many properties: the subsets of the first four, and first of all the value with every property supplied
+		all := map[string]any{}
+		for i, p := range s.Props {
+			if has[i] && !p.Disabled && len(p.Conflicts) == 0 {
+				all[p.Name] = good[i]
+			}
+		}
+		out = append(out, all)
 	}
 	for mask := 0; mask < limit; mask++ {
 		m := map[string]any{}
@@ -615,8 +626,8 @@ func OneOfRawValues(s *Spec) []any {
 				continue
 			}
 			cnt++
-			if cnt > 14 {
-				break
+			if cnt > 14 && len(mo.Props) <= 4 {
+				break // small members: the first 14 payloads; members with many properties: every payload
 			}
 			for di, d := range discs {
 				if di > 0 && cnt > 2 {
